@@ -176,6 +176,11 @@ def build_case(r, tier):
         app = r.chance(0.25) and mode == "dsl"
         if mode == "pipe":
             redir, tgt = "|", "\"cat > p_\" . $k . \".out\""
+            if r.chance(0.2):
+                # a command that takes its time: when mlr exits, everything it piped must have been dealt with
+                # (as with pclose); the directory is looked at at that instant, before the children are reaped
+                redir, tgt = "|", "\"sleep 0.2; cat > p_\" . $k . \".out\""
+                case["slow_children"] = True
             if name in ("emit_lashed", "emitp", "emitf", "dump", "emit1"):
                 name, tmpl, plain = stmts[r.choice([0, 1, 5])]
         else:
@@ -330,7 +335,9 @@ def evaluate(case, chk):
         case["configs"] = cfgs
     for cfg in case["configs"]:
         r = pool.run1(mkspec(with_batch(args, cfg.get("batch")), sched=cfg["sched"], files=files, knobs=cfg["knobs"], rtseed=cfg.get("rtseed", 1),
-                             snapshot=True, fd_limit=(case["lru"] + 8) if case["kind"] != "pipe" else 0))
+                             snapshot=True, fd_limit=(case["lru"] + 8) if case["kind"] != "pipe" else 0, snap_at_exit=bool(case.get("slow_children"))))
+        if case.get("slow_children"):
+            vd.notes["runs_snapshot_at_exit_with_slow_children"] = vd.notes.get("runs_snapshot_at_exit_with_slow_children", 0) + 1
         vd.runs.append(r)
         judge(case, vd, r, cfg, ref, tm, expected, revisited)
         if len(vd.violations) >= 2:
